@@ -241,7 +241,7 @@ def _undo_match(e, g):
     listed or not."""
     g = list(g)
     for d in e:
-        want = {k: v for k, v in d.items() if k != '_n'}
+        want = {k: v for k, v in d.items() if k not in ('_n', '_dup')}
         if g and g[0] == want:
             g.pop(0)
         elif d['_n']:
